@@ -20,6 +20,7 @@ import (
 
 	"github.com/alibaba/sentinel-golang/logging"
 	"github.com/alibaba/sentinel-golang/util"
+	"github.com/alibaba/sentinel-golang/util/verifhook"
 	"github.com/pkg/errors"
 )
 
@@ -201,6 +202,7 @@ func (sc *SlotChain) Entry(ctx *EntryContext) *TokenResult {
 		ctx.RuleCheckResult = ruleCheckRet
 	}
 
+	verifhook.Yield("chain.between-check-and-stat")
 	// execute statistic slot
 	ss := sc.stats
 	ruleCheckRet = ctx.RuleCheckResult
